@@ -55,6 +55,15 @@ CHECKS = {
              "local anomaly scores; clauses re-checked on the implementation's output in Coq.",
         note=BASE_TB + "Model/Cbs.v hand-written; candidate intervals share the SBS float front-end oracle. No axioms.",
         ref="DESIGN.md section 4 / C09"),
+    "C05": dict(
+        technique="Coq proof (pointwise label characterisation and exact round trips of the index-blind converter models) + model-vs-code correspondence over index kinds",
+        text="Theorems in coq/Properties/C05.v: for every valid sparse output (incl. adjacent, length-1 and end-touching events) the dense labels are the segment number / "
+             "the label of the covering anomaly / 0 (per affected column for the subset variant), have length n, and dense_to_sparse(sparse_to_dense y) = y (columns as sets); "
+             "refutation of the originally pinned run-splitting. The models never receive X's index, so any index dependence of the code is a correspondence failure. Tie: "
+             "the three pairs of static converters and transform() of stub detectors returning hand-built / random valid outputs are run under six index kinds and two column "
+             "labellings and must equal the model exactly (decided in Coq), dense output must carry X's own index; the seven real detectors are run under every index kind.",
+        note=BASE_TB + "Model/Convert.v hand-written (pandas IntervalIndex.get_indexer, diff, groupby are the platform). No axioms.",
+        ref="DESIGN.md section 4 / C05"),
     "C13": dict(
         technique="Coq proof (characterisation of the accepted cuts) + exhaustive small-box correspondence against the real evaluate",
         text="Theorems in coq/Properties/C13.v: the model of evaluate's validation returns scores iff the argument is an integer array of "
